@@ -92,3 +92,66 @@ package gateway
 //@   modifies *
 //@   before Load [system_locked_before_any_work] calls("Safeops.LockSystem") == old(calls("Safeops.LockSystem")) + 1
 //@   ensures[shutdown_lock_balanced] calls("Safeops.LockSystem") == old(calls("Safeops.LockSystem")) + 1 && calls("Safeops.UnlockSystem") == old(calls("Safeops.UnlockSystem")) + 1
+
+// The same shutdown-lock balance for the other handlers that take the system lock and are within the verifier's reach
+// (Set, the Increment*, Patch* and ShiftMatching* handlers are not: path explosion or unsupported constructs).
+//@ func (Gateway).RegisterSwamp(g, ctx, in) (resp, err)
+//@   property C26
+//@   modifies *
+//@   ensures[shutdown_lock_balanced] calls("Safeops.LockSystem") == old(calls("Safeops.LockSystem")) + 1 && calls("Safeops.UnlockSystem") == old(calls("Safeops.UnlockSystem")) + 1
+//@ func (Gateway).GetByIndex(g, ctx, in) (resp, err)
+//@   property C26
+//@   modifies *
+//@   ensures[shutdown_lock_balanced] calls("Safeops.LockSystem") == old(calls("Safeops.LockSystem")) + 1 && calls("Safeops.UnlockSystem") == old(calls("Safeops.UnlockSystem")) + 1
+//@ func (Gateway).GetByKeys(g, ctx, in) (resp, err)
+//@   property C26
+//@   modifies *
+//@   ensures[shutdown_lock_balanced] calls("Safeops.LockSystem") == old(calls("Safeops.LockSystem")) + 1 && calls("Safeops.UnlockSystem") == old(calls("Safeops.UnlockSystem")) + 1
+//@ func (Gateway).CompactSwamp(g, ctx, in) (resp, err)
+//@   property C26
+//@   modifies *
+//@   ensures[shutdown_lock_balanced] calls("Safeops.LockSystem") == old(calls("Safeops.LockSystem")) + 1 && calls("Safeops.UnlockSystem") == old(calls("Safeops.UnlockSystem")) + 1
+//@ func (Gateway).Destroy(g, ctx, in) (resp, err)
+//@   property C26
+//@   modifies *
+//@   ensures[shutdown_lock_balanced] calls("Safeops.LockSystem") == old(calls("Safeops.LockSystem")) + 1 && calls("Safeops.UnlockSystem") == old(calls("Safeops.UnlockSystem")) + 1
+//@ func (Gateway).Delete(g, ctx, in) (resp, err)
+//@   property C26
+//@   modifies *
+//@   ensures[shutdown_lock_balanced] calls("Safeops.LockSystem") == old(calls("Safeops.LockSystem")) + 1 && calls("Safeops.UnlockSystem") == old(calls("Safeops.UnlockSystem")) + 1
+//@ func (Gateway).Count(g, ctx, in) (resp, err)
+//@   property C26
+//@   modifies *
+//@   ensures[shutdown_lock_balanced] calls("Safeops.LockSystem") == old(calls("Safeops.LockSystem")) + 1 && calls("Safeops.UnlockSystem") == old(calls("Safeops.UnlockSystem")) + 1
+//@ func (Gateway).IsSwampExist(g, ctx, in) (resp, err)
+//@   property C26
+//@   modifies *
+//@   ensures[shutdown_lock_balanced] calls("Safeops.LockSystem") == old(calls("Safeops.LockSystem")) + 1 && calls("Safeops.UnlockSystem") == old(calls("Safeops.UnlockSystem")) + 1
+//@ func (Gateway).IsKeyExist(g, ctx, in) (resp, err)
+//@   property C26
+//@   modifies *
+//@   ensures[shutdown_lock_balanced] calls("Safeops.LockSystem") == old(calls("Safeops.LockSystem")) + 1 && calls("Safeops.UnlockSystem") == old(calls("Safeops.UnlockSystem")) + 1
+//@ func (Gateway).AreKeysExist(g, ctx, in) (resp, err)
+//@   property C26
+//@   modifies *
+//@   ensures[shutdown_lock_balanced] calls("Safeops.LockSystem") == old(calls("Safeops.LockSystem")) + 1 && calls("Safeops.UnlockSystem") == old(calls("Safeops.UnlockSystem")) + 1
+//@ func (Gateway).Uint32SlicePush(g, ctx, in) (resp, err)
+//@   property C26
+//@   modifies *
+//@   ensures[shutdown_lock_balanced] calls("Safeops.LockSystem") == old(calls("Safeops.LockSystem")) + 1 && calls("Safeops.UnlockSystem") == old(calls("Safeops.UnlockSystem")) + 1
+//@ func (Gateway).Uint32SliceDelete(g, ctx, in) (resp, err)
+//@   property C26
+//@   modifies *
+//@   ensures[shutdown_lock_balanced] calls("Safeops.LockSystem") == old(calls("Safeops.LockSystem")) + 1 && calls("Safeops.UnlockSystem") == old(calls("Safeops.UnlockSystem")) + 1
+//@ func (Gateway).Uint32SliceSize(g, ctx, in) (resp, err)
+//@   property C26
+//@   modifies *
+//@   ensures[shutdown_lock_balanced] calls("Safeops.LockSystem") == old(calls("Safeops.LockSystem")) + 1 && calls("Safeops.UnlockSystem") == old(calls("Safeops.UnlockSystem")) + 1
+//@ func (Gateway).Uint32SliceIsValueExist(g, ctx, in) (resp, err)
+//@   property C26
+//@   modifies *
+//@   ensures[shutdown_lock_balanced] calls("Safeops.LockSystem") == old(calls("Safeops.LockSystem")) + 1 && calls("Safeops.UnlockSystem") == old(calls("Safeops.UnlockSystem")) + 1
+//@ func (Gateway).DestroyBulk(g, stream) (err)
+//@   property C26
+//@   modifies *
+//@   ensures[shutdown_lock_balanced] calls("Safeops.LockSystem") == old(calls("Safeops.LockSystem")) + 1 && calls("Safeops.UnlockSystem") == old(calls("Safeops.UnlockSystem")) + 1
